@@ -8,15 +8,15 @@ PROP = {
             "{absent, -1..8} x reversed x {for with else, tablerow without cols, tablerow cols 0..4} x {no break, break at j, "
             "continue at j, break below if+case at j for every j <= length, break/continue on forloop.first, continue on "
             "forloop.last}; the body prints item|index|index0|rindex|rindex0|length|first|last; and the loop variable and forloop "
-            "are printed after the loop; (2) offset and limit given as variables: length 0..4 x offset x limit x reversed x {for with else, tablerow cols 2}, no break/continue; (3) ranges (a..b) "
+            "are printed after the loop; (1b) offset and limit at the integer boundary (2^63-1, 2^63-2, 2^62, 2^31, with absent, 0, 1, 2; alone and together, as literals and as variables) x length 0, 1, 3, 5 x reversed x {for, tablerow cols 2}; (2) offset and limit given as variables: length 0..4 x offset x limit x reversed x {for with else, tablerow cols 2}, no break/continue; (3) ranges (a..b) "
             "for all endpoint pairs in -3..6, literal and variable endpoints, x 5 modifier sets x {for, tablerow cols 2}; "
             "(4) 24 collection kinds ([]any, []int, [3]string, []string, empty, range, descending range, string-keyed maps, "
             "int-keyed map, MapSlice, IterationKeyedMap, nil, int, string, bool, float, drop of array, drop of nil, nil pointer, "
-            "nested arrays) x 8 modifier sets x {for with/without else, tablerow with/without cols}; (4b) offset/limit/cols given as int64, float, string, nil, bool, uint8 (no claim, model comparison only); "
+            "nested arrays) x 8 modifier sets x {for with/without else, tablerow with/without cols}; (4b) offset/limit/cols given as int (claimed), int64, float (2.0 and 1.5), string, nil, bool, uint8 (no claim, model comparison only); "
             "(5) 20000 / 200000 random nestings to depth 3 of for/tablerow over arrays, typed slices, ranges with variable endpoints, maps, MapSlice and "
             "keyed maps, with modifiers given as literals or variables in random textual order, conditionals, case, cycles "
             "(ungrouped and grouped, several tags per group), assigns, break/continue (plain, below unless+case, inside capture), "
-            "inner loops shadowing the outer loop variable. Distinct non-trivial = distinct specs with non-empty output",
+            "inner loops shadowing the outer loop variable. Distinct non-trivial = distinct specs with non-empty output. (6) a fixed family of 300 renders on the real engine only (no model line): a loop over a map whose body also applies a REGISTERED append filter to the loop variable (into a variable nobody reads) must render what the body without it renders (5 maps x 5 loop heads x 3 bodies x 4 appends)",
     "trusted_base": COMMON_TB + ["the reference loop of harness/ref_prog.go (items, reverse, skip, take, forloop field formulas, "
                                  "break/continue, cycle counters, tablerow decoration) is the oracle; it does not use the Lean "
                                  "model or the library"],
@@ -28,22 +28,22 @@ PROP = {
 }
 
 TEXT = {
-    "text": ('Theorems: the items of a range (rangeItems: none when b < a, else a..b in order; a loop visits exactly them, in order, whatever their number: range_loop_any_size - the Go code iterates a range lazily without limit, and the only bound of the model, Cfg.budget (the largest b - a whose items the EXECUTABLE model materialises; default 100000, used by the driver; no counterpart in the code), is a parameter over which every theorem is universally quantified: for every range there is a budget, under every budget >= b - a the loop visits rangeItems a b (loopItems_range), and raising the budget never changes an answer that was given - for the items (budget_monotone_loopItems), for a loop node (budget_monotone_loop_node) and for a whole render through all nodes, captures and included files, together with the budget of the array conversion of a range (budget_monotone, budget_monotone_std, budget_monotone_runStd; Proofs.Budget: run_le)), arrays/maps/nil item lists, selection = reverse, then skip '
+    "text": ('Theorems: the items of a range (rangeItems: none when b < a, else a..b in order; a loop visits exactly them, in order, whatever their number: range_loop_any_size - the Go code iterates a range lazily without limit, and the only bound of the model, Cfg.budget (the largest b - a whose items the EXECUTABLE model materialises; default 100000, used by the driver; no counterpart in the code), is a parameter over which every theorem is universally quantified: for every range there is a budget, under every budget >= b - a the loop visits rangeItems a b (loopItems_range), and raising the budget never changes an answer that was given - for the items (budget_monotone_loopItems), for a loop node (budget_monotone_loop_node) and for a whole render through all nodes, captures and included files, together with the budget of the array conversion of a range (budget_monotone, budget_monotone_std, budget_monotone_runStd; Proofs.Budget: run_le)), the item lists of the other collections under every budget: arrays, typed slices and fixed arrays element by element in order (loopItems_slice, loopItems_array); a map as one [key, value] pair per entry in the order of values.SortedMapKeys, whatever order the map value holds its entries in (loopItems_map, loopItems_map_length; stated for a map with at most one key that is neither a boolean, a number nor a string, MapOrder.manyClass4 = false - the model answers `unmodelled` for the others, which the code orders by fmt.Sprint and then by their Go syntax; that the sorted order does not depend on the order of the entry list is proved in Proofs.MapOrder, audited under C02); nil nothing (loopItems_nil); selection = reverse, then skip '
               'offset, then take limit (select_spec), else clause exactly when nothing is selected, '
               'forloop.index/index0/rindex/rindex0/length/first/last by formula for every iteration, break/continue consumed by '
               'the innermost loop (iterate_consumes for for and tablerow; iterate_break, iterate_next for `for`), cycle counters per loop execution and group '
               '(cycleGet_set_same, cycleGet_fresh), tablerow row/cell decoration (tablerow_before/after). Whole-construct '
               'denotation (loop_denotation, for_denotation, tablerow_denotation; for a loop with at most one else clause): once the collection and the modifiers '
               'evaluate, the bytes written on a fault-free writer and the final state of a for/tablerow node equal the left fold '
-              '(List.foldl of iterStep) over the selected items of the body run with the loop variable and forloop bound by the '
+              '(List.foldl of iterStep, a definition of Proofs/LoopLemmas.lean) over the selected items of the body run with the loop variable and forloop bound by the '
               'formulas (tablerow: between its cell decorations), cut at the first break, going on after continue, failures '
               'located at the loop tag, with forloop and the loop variable restored at the end; nothing selected and an else '
               'clause: that clause. From source bytes (Proofs.C11Source; clean item lists, any good delimiters, every value layer, any output layer that prints an int as its decimal text - the standard one does), for int64 a, b, every configuration whose budget is at least b - a (cfg.budget is arbitrary) and an identifier i other than forloop: for a <= b the source {% for i in (a..b) %}{{ i }}{% endfor %}, a and b in decimal, makes run return exactly the decimal numerals of a, a+1, ..., b concatenated (for_range_numerals_source; the arguments are parsed by the scanner and grammar model, parse_rangeArgs); for any a, b, with reversed and int64 literal offset:/limit: arguments (each optional), the numerals of selectItems reversed off lim [a..b] (for_range_mods_source, parse_rangeArgs_mods; for_range_source for any argument text that parses so); a loop variable named forloop is shadowed by the forloop record (for_var_named_forloop). Tie: the `loops` stream '
-              '(exhaustive offset/limit/reversed/cols/break grid plus random nestings) answers every case by the model and the '
+              '(exhaustive offset/limit/reversed/cols/break grid plus random nestings) answers every case (the fixed family with a registered append filter excepted: real engine only) by the model and the '
               'real engine, and the real output is compared byte for byte with an independent reference loop '
               '(harness/ref_prog.go).'),
     "design_ref": 'DESIGN.md 6 C11',
-    "note": NOTE + ("No theorem carries a bound on the size of a range: the number 100000 is the default of Cfg.budget, which only the driver (the model binary the streams run against) uses - there a loop over a longer range is answered `unmodelled` (the loops stream generates no such range); the theorems are stated for every budget, and by budget_monotone a result obtained under one budget is the result under every larger one. The same holds for the second model-only number, the 10^6 of the array conversion of a range (C15; the value layer of a render is the parameter P, the standard one stdPrimsB n for every n). The denotation theorems are stated for a loop with at most one else clause (the compiler accepts more, the model treats that case separately), after the collection and the modifiers have evaluated, on a writer that does not fail; iterate_break / iterate_next are stated for `for`, a break or continue inside tablerow is covered by loop_denotation / tablerow_denotation. The source-level theorems are about one shape, {% for i in (a..b) mods %}{{ i }}{% endfor %} with int64 literals, a clean item list (Clean, DESIGN 7.1) and a loop variable other than forloop (needed: for_var_named_forloop). select_spec and tablerow_before/after restate the definitions of the model in readable form; that the model describes tags/iteration_tags.go is what the loops stream checks."),
+    "note": NOTE + ("No theorem carries a bound on the size of a range: the number 100000 is the default of Cfg.budget, which only the driver (the model binary the streams run against) uses - there a loop over a longer range is answered `unmodelled` (the loops stream generates no such range); the theorems are stated for every budget, and by budget_monotone a result obtained under one budget is the result under every larger one. The same holds for the second model-only number, the 10^6 of the array conversion of a range (C15; the value layer of a render is the parameter P, the standard one stdPrimsB n for every n). The order in which a map is visited is stated for maps with at most one key that is neither a boolean, a number nor a string (loopItems_map); a loop over a map with several such keys is answered `unmodelled`. The denotation theorems are stated for a loop with at most one else clause (the compiler accepts more, the model treats that case separately), after the collection and the modifiers have evaluated, on a writer that does not fail; iterate_break / iterate_next are stated for `for`, a break or continue inside tablerow is covered by loop_denotation / tablerow_denotation. The source-level theorems are about one shape, {% for i in (a..b) mods %}{{ i }}{% endfor %} with int64 literals, a clean item list (Clean, decidable, Proofs/E2ESpell.lean; the shapes outside it are listed under C19) and a loop variable other than forloop (needed: for_var_named_forloop). select_spec and tablerow_before/after restate the definitions of the model in readable form; that the model describes tags/iteration_tags.go is what the loops stream checks."),
     "technique": ('Lean 4 proof (list lemmas for selection; induction over the iteration of the render model; loop = left fold) + model/implementation '
               'correspondence + independent reference oracle'),
 }
